@@ -27,6 +27,10 @@ CHECKS = {
          "CLI.tla (CLI_full.cfg) checks the slot table - which symbolic quantity is printed in which slot for each of the 480 option vectors and 3 input types, default format per input type, uncertainty placement - as invariants; Trace_C15.tla validates executions of gm2calc.x against API values recorded from the library for the same input: printed decimals equal the API value to the printed precision (minimal, SLHA blocks, every number of both detailed reports incl. products and sums), parts add up to totals, every percentage is 100 x component / reference, the same text in formats 0/2/3/4, uncertainty exactly where documented, SLHA echo token-for-token",
          "quick tier: covering subset of 60 option vectors per input (all 480 in the thorough tier), shipped inputs and test points; trusted: decimal/stdout parsing in the harness, TLC",
          "TLC model checking of CLI.tla slot invariants + TLA+ trace validation (Trace_C15.tla) of program output against recorded API values", "DESIGN 5/C15"),
+ "C16": ("model_checking",
+         "Defects.tla holds the catalogue of documented defects, the exception classes a refusal may carry and the rules of the property as predicates; TLC enumerates all defect sets of size <= 2; CLI.tla is model-checked for the exit-status rules (refused / problem flagged / warnings only) over all input classes, force-output and formats.  Every defect set x force-output is applied to random valid points through the C++ API, the C API and gm2calc.x in the three input formats; Trace_C16.tla evaluates the rules on each recorded outcome (exception class / error code, stderr warnings, problem flag, finiteness, exit status, presence of physics output)",
+         "a refusal under force-output counts as rejection; the massless-chargino defect is not enumerated (not realisable exactly from outside); SLHA-format program runs use the shipped example point; trusted: Defects.tla transcription of the documentation, TLC",
+         "TLC enumeration of defect sets + model checking of CLI.tla + TLA+ trace validation (Trace_C16.tla) of library and program outcomes", "DESIGN 5/C16"),
  "C18": ("exploration",
          "random MSSM/THDM models from TLC-enumerated classes; every recorded call of the uncertainty API is validated by TLC against the documented definitions (floor, sums, overload agreement) in exact arithmetic",
          "sampling inside classes is not exhaustive; trusted: TLC, lossless double encoder, class generators",
